@@ -8,7 +8,7 @@ class Unit:
     per_file = 4
     features = ('derive',)         # features of the strum dependency
     kani_always = False            # run Kani twins in the quick tier as well (where Kani is the decider)
-    kani_jobs = 12
+    kani_jobs = 14
     verus_top = ''                 # extra top-level text (e.g. `global size_of usize == 8;`)
     assumptions = ()
     level = 'proof'
@@ -177,7 +177,7 @@ class Unit:
         done = 0
         tried = 0
         for hid, lst in sorted(want.items()):
-            if done >= 2 or tried >= 4:
+            if done >= 1 or tried >= 2:
                 break
             tried += 1
             t0 = time.time()
